@@ -282,3 +282,32 @@ def crc32_calculate(vc, nbytes):
 
 
 crc32_calculate.shapes = lambda tier: [dict(nbytes=n) for n in ((0, 1, 2, 3, 4, 5, 8, 12, 20, 24, 36, 64) if tier == "quick" else list(range(0, 65)) + [96, 120, 144, 192, 240])]
+
+
+@contract("byteswap_bytes.frame", "okdmr.dmrlib.utils.bits_bytes:byteswap_bytes", ["C19", "C05", "C13"], stubs=["BitCrcRegister._process_bits"],
+          note="the 16-bit word swap works on a private copy: a caller's MUTABLE buffer (bytearray) is left alone by byteswap_bytes and by CRC32.calculate / check, "
+               "and gives the same results as the immutable octets")
+def byteswap_frame(vc, nbytes):
+    from okdmr.dmrlib.utils.bits_bytes import byteswap_bytes
+
+    d = vc.bytes_(nbytes, "d")
+    if vc.mode == "native":
+        buf = bytearray(d)
+    else:
+        from pyvc.shadows import SByteArray
+
+        buf = SByteArray(d)
+    want = S.byteswap16(list(d) if vc.mode == "native" else list(d.v))
+    out = byteswap_bytes(buf)
+    vc.prove("swaps_the_octets_of_each_16_bit_word", len(out) == nbytes and vc.and_(*[vc.eq(out[i], want[i]) for i in range(nbytes)]))
+    vc.prove("mutable_argument_unchanged_by_byteswap", len(buf) == nbytes and vc.and_(*[vc.eq(buf[i], d[i]) for i in range(nbytes)]))
+    havoc_calc(vc, CRC32, 32)
+    r1 = CRC32.calculate(buf)
+    vc.prove("mutable_argument_unchanged_by_crc32", len(buf) == nbytes and vc.and_(*[vc.eq(buf[i], d[i]) for i in range(nbytes)]))
+    r2 = CRC32.calculate(d)
+    vc.prove("crc32_of_a_bytearray_equals_crc32_of_the_bytes", vc.eq(r1, r2))
+    ok = CRC32.check(buf, r2)
+    vc.prove("check_accepts_the_value_and_leaves_the_buffer_alone", vc.and_(ok, *[vc.eq(buf[i], d[i]) for i in range(nbytes)]))
+
+
+byteswap_frame.shapes = lambda tier: [dict(nbytes=n) for n in ((0, 1, 2, 5, 8, 20) if tier == "quick" else range(0, 41))]
